@@ -435,9 +435,11 @@ impl PacketContents {
         self.num_chunks += 1;
     }
     fn can_fit_chunk(&self, data: &[u8], vital: bool) -> bool {
-        // current size + chunk header + chunk length
+        // current size + chunk header + chunk length must fit the packet payload;
+        // `MAX_PAYLOAD` is the limit for the data of a single chunk.
         self.num_chunks < u8::MAX
-            && self.data.len() + protocol::chunk_header_size(vital) + data.len() <= MAX_PAYLOAD
+            && self.data.len() + protocol::chunk_header_size(vital) + data.len()
+                <= MAX_PACKETSIZE - protocol::HEADER_SIZE
     }
     fn clear(&mut self) {
         *self = PacketContents::new();
